@@ -31,7 +31,7 @@ ASSUMPTIONS = [
     "non-empty leaf syntenies without repeated families",
     "reference oracles of harness/oracles.py (brute force and recursion agree on every case where both run)",
 ]
-BUDGET = {"quick": {"random": 1500}, "thorough": {"random": 25000}}
+BUDGET = {"quick": {"random": 5000}, "thorough": {"random": 60000}}
 FUZZ = {"thorough": {"runs": 20000, "max_time": 900}}
 
 
